@@ -292,8 +292,8 @@ func RunCheck(id, tier string, nworkers int) int {
 			cmd.Stderr = &sb
 			err := cmd.Run()
 			t := sb.String()
-			if len(t) > 4000 {
-				t = t[len(t)-4000:]
+			if len(t) > 3000 {
+				t = t[:1500] + "\n...\n" + t[len(t)-1500:]
 			}
 			results[w] = wres{w, err, t}
 		}(w)
